@@ -2,6 +2,7 @@ package refl
 
 import (
 	"fmt"
+	"google.golang.org/protobuf/reflect/protodesc"
 	"sort"
 	"strings"
 
@@ -231,7 +232,19 @@ func systems(c *core.Ctx, which string) []sys {
 		}...)
 	case "C11":
 		d2 := core.Pick(c, 2, 3)
-		return []sys{
+		// dynamicpb over descriptors built by protodesc from schema sources: every presence class of
+		// every syntax, incl. editions LEGACY_REQUIRED and IMPLICIT scalars (the model's presence comes
+		// from the schema source, not from the descriptor under test)
+		var built []sys
+		for i, syn := range []univ.Syntax{univ.Proto2, univ.Proto3, univ.Ed2023} {
+			fdp := univ.SchemaFile(fmt.Sprintf("verif/c11/s%d.proto", i), fmt.Sprintf("verif.c11.s%d", i), syn, univ.Shapes(syn, false))
+			fd, err := protodesc.NewFile(fdp, protoregistry.GlobalFiles)
+			if err != nil {
+				panic(err)
+			}
+			built = append(built, sys{name: "protodesc-built " + string(syn) + " schema", dyn: true, depth: d2, md: fd.Messages().ByName("M")})
+		}
+		return append(built, []sys{
 			{name: "goproto.proto.test.TestAllTypes", dyn: false, depth: d2}, {name: "goproto.proto.test.TestAllTypes", dyn: true, depth: d2},
 			{name: "goproto.proto.test3.TestAllTypes", dyn: false, depth: d2}, {name: "goproto.proto.test3.TestAllTypes", dyn: true, depth: d2},
 			{name: "goproto.proto.testeditions.TestAllTypes", dyn: false, depth: d2},
@@ -243,7 +256,7 @@ func systems(c *core.Ctx, which string) []sys {
 			{name: "pb3.Scalars", dyn: false, depth: d2 + 1},
 			{name: "pb3.OptionalScalars", dyn: false, depth: d2 + 1},
 			{name: "opaque.lazy_tree.Node", dyn: false, depth: d2 + 1},
-		}
+		}...)
 	}
 	return []sys{
 		{name: "goproto.proto.testeditions.TestAllTypes", dyn: false, depth: d}, {name: "goproto.proto.testeditions.TestAllTypes", dyn: true, depth: d},
